@@ -5,6 +5,7 @@ package pbgen
 
 import (
 	"math/rand"
+	"reflect"
 	"sort"
 	"strings"
 
@@ -166,6 +167,9 @@ func (g *Gen) Scramble(m proto.Message) {
 	if !r.IsValid() {
 		return
 	}
+	// first write THROUGH what the message points to (optional scalars are pointers, bytes are slices): a caller
+	// doing `*ev.Total = n` or `ev.Data[0] = x` edits shared memory if the model handed it one of its own pointers
+	g.writeThrough(reflect.ValueOf(m), 0)
 	// mutate nested messages and lists in place first (so shared sub-objects would be hit), then refill
 	r.Range(func(fd protoreflect.FieldDescriptor, v protoreflect.Value) bool {
 		switch {
@@ -287,4 +291,55 @@ func (g *Gen) ReadMaskPaths(md protoreflect.MessageDescriptor, max int) []string
 		}
 	}
 	return norm
+}
+
+// writeThrough overwrites, in place, every scalar reachable through a pointer and every byte of a bytes field in the
+// generated struct behind m (Go reflection: protoreflect's Set would replace the pointer instead of writing through it).
+func (g *Gen) writeThrough(v reflect.Value, depth int) {
+	if depth > 4 || !v.IsValid() {
+		return
+	}
+	switch v.Kind() {
+	case reflect.Ptr:
+		if v.IsNil() {
+			return
+		}
+		e := v.Elem()
+		switch e.Kind() {
+		case reflect.Struct:
+			for i := 0; i < e.NumField(); i++ {
+				if e.Type().Field(i).IsExported() {
+					g.writeThrough(e.Field(i), depth+1)
+				}
+			}
+		case reflect.Int32, reflect.Int64:
+			e.SetInt(e.Int() + 1 + int64(g.R.Intn(3)))
+		case reflect.Uint32, reflect.Uint64:
+			e.SetUint(e.Uint() + 1 + uint64(g.R.Intn(3)))
+		case reflect.Float32, reflect.Float64:
+			e.SetFloat(e.Float() + 12.5)
+		case reflect.Bool:
+			e.SetBool(!e.Bool())
+		case reflect.String:
+			e.SetString(e.String() + "!")
+		}
+	case reflect.Slice:
+		if v.Type().Elem().Kind() == reflect.Uint8 {
+			for i := 0; i < v.Len(); i++ {
+				v.Index(i).SetUint(uint64(v.Index(i).Uint()+1) & 0xff)
+			}
+			return
+		}
+		for i := 0; i < v.Len(); i++ {
+			g.writeThrough(v.Index(i), depth+1)
+		}
+	case reflect.Map:
+		for _, k := range v.MapKeys() {
+			g.writeThrough(v.MapIndex(k), depth+1)
+		}
+	case reflect.Interface:
+		if !v.IsNil() {
+			g.writeThrough(v.Elem(), depth+1) // oneof wrappers
+		}
+	}
 }
